@@ -175,6 +175,7 @@ func (s *Service) Update(ctx context.Context, pipelineID string, cfg Config) (*I
 		return nil, err
 	}
 
+	oldConfig, oldUpdatedAt := pl.Config, pl.UpdatedAt
 	delete(s.instanceNames, pl.Config.Name) // delete the old name
 	pl.Config = cfg
 	pl.UpdatedAt = time.Now()
@@ -182,6 +183,10 @@ func (s *Service) Update(ctx context.Context, pipelineID string, cfg Config) (*I
 	s.instanceNames[cfg.Name] = true
 	err = s.store.Set(ctx, pl.ID, pl)
 	if err != nil {
+		// nothing was stored: put the in-memory view back as it was
+		delete(s.instanceNames, cfg.Name)
+		pl.Config, pl.UpdatedAt = oldConfig, oldUpdatedAt
+		s.instanceNames[oldConfig.Name] = true
 		return nil, cerrors.Errorf("failed to save pipeline with ID %q: %w", pl.ID, err)
 	}
 
@@ -208,10 +213,13 @@ func (s *Service) UpdateDLQ(ctx context.Context, pipelineID string, cfg DLQ) (*I
 		return nil, cerrors.New("DLQ window nack threshold must be lower than window size")
 	}
 
+	oldDLQ, oldUpdatedAt := pl.DLQ, pl.UpdatedAt
 	pl.DLQ = cfg
 	pl.UpdatedAt = time.Now()
 	err = s.store.Set(ctx, pl.ID, pl)
 	if err != nil {
+		// nothing was stored: put the in-memory view back as it was
+		pl.DLQ, pl.UpdatedAt = oldDLQ, oldUpdatedAt
 		return nil, cerrors.Errorf("failed to save pipeline with ID %q: %w", pl.ID, err)
 	}
 
@@ -224,10 +232,13 @@ func (s *Service) AddConnector(ctx context.Context, pipelineID string, connector
 	if err != nil {
 		return nil, err
 	}
+	oldConnectorIDs, oldUpdatedAt := pl.ConnectorIDs, pl.UpdatedAt
 	pl.ConnectorIDs = append(pl.ConnectorIDs, connectorID)
 	pl.UpdatedAt = time.Now()
 	err = s.store.Set(ctx, pl.ID, pl)
 	if err != nil {
+		// nothing was stored: put the in-memory view back as it was
+		pl.ConnectorIDs, pl.UpdatedAt = oldConnectorIDs, oldUpdatedAt
 		return nil, cerrors.Errorf("failed to save pipeline with ID %q: %w", pl.ID, err)
 	}
 
@@ -251,11 +262,15 @@ func (s *Service) RemoveConnector(ctx context.Context, pipelineID string, connec
 		return nil, cerrors.Errorf("%w (ID: %s)", ErrConnectorIDNotFound, connectorID)
 	}
 
+	// the removal shifts the IDs in place, keep a copy to restore on failure
+	oldConnectorIDs, oldUpdatedAt := append([]string(nil), pl.ConnectorIDs...), pl.UpdatedAt
 	pl.ConnectorIDs = pl.ConnectorIDs[:connectorIndex+copy(pl.ConnectorIDs[connectorIndex:], pl.ConnectorIDs[connectorIndex+1:])]
 	pl.UpdatedAt = time.Now()
 
 	err = s.store.Set(ctx, pl.ID, pl)
 	if err != nil {
+		// nothing was stored: put the in-memory view back as it was
+		pl.ConnectorIDs, pl.UpdatedAt = oldConnectorIDs, oldUpdatedAt
 		return nil, cerrors.Errorf("failed to save pipeline with ID %q: %w", pl.ID, err)
 	}
 
@@ -268,10 +283,13 @@ func (s *Service) AddProcessor(ctx context.Context, pipelineID string, processor
 	if err != nil {
 		return nil, err
 	}
+	oldProcessorIDs, oldUpdatedAt := pl.ProcessorIDs, pl.UpdatedAt
 	pl.ProcessorIDs = append(pl.ProcessorIDs, processorID)
 	pl.UpdatedAt = time.Now()
 	err = s.store.Set(ctx, pl.ID, pl)
 	if err != nil {
+		// nothing was stored: put the in-memory view back as it was
+		pl.ProcessorIDs, pl.UpdatedAt = oldProcessorIDs, oldUpdatedAt
 		return nil, cerrors.Errorf("failed to save pipeline with ID %q: %w", pl.ID, err)
 	}
 
@@ -295,11 +313,15 @@ func (s *Service) RemoveProcessor(ctx context.Context, pipelineID string, proces
 		return nil, cerrors.Errorf("%w (ID: %s)", ErrProcessorIDNotFound, processorID)
 	}
 
+	// the removal shifts the IDs in place, keep a copy to restore on failure
+	oldProcessorIDs, oldUpdatedAt := append([]string(nil), pl.ProcessorIDs...), pl.UpdatedAt
 	pl.ProcessorIDs = pl.ProcessorIDs[:processorIndex+copy(pl.ProcessorIDs[processorIndex:], pl.ProcessorIDs[processorIndex+1:])]
 	pl.UpdatedAt = time.Now()
 
 	err = s.store.Set(ctx, pl.ID, pl)
 	if err != nil {
+		// nothing was stored: put the in-memory view back as it was
+		pl.ProcessorIDs, pl.UpdatedAt = oldProcessorIDs, oldUpdatedAt
 		return nil, cerrors.Errorf("failed to save pipeline with ID %q: %w", pl.ID, err)
 	}
 
